@@ -10,6 +10,7 @@ pub fn build(family: &str, rng: &mut Rng, index: u64) -> Option<Plan> {
 		"smoke" => Some(simple_plan(rng, 1 + (index % 2) as usize)),
 		"F2p" => f2p(index),
 		"F2n" => f2n(index),
+		"F2q" => f2q(index),
 		"F2" => f2(index),
 		"F2b" => f2b(index),
 		"F2h" => f2h(index),
@@ -771,5 +772,20 @@ fn f2f(index: u64) -> Option<Plan> {
 	p.ops = vec![Op::Run { attempts: 2, max_virtual_s: 6000, only: vec![] }];
 	p.sched.max_events = 80_000;
 	p.note = format!("F2f {}#{} x {} for ever", class, nth, super::super::ca::fault_name(&kinds[g[1] as usize]));
+	Some(p)
+}
+
+/// F2q: the error-run grid on five further base plans (kp_reuse, pre-existing pair, other account
+/// key types incl. RSA) with the boundary run lengths 1, 9, 10, 11.
+fn f2q(index: u64) -> Option<Plan> {
+	let kinds = error_kinds();
+	let runs = [1u64, 9, 10, 11];
+	let g = grid(index, &[5, POST_POSITIONS.len() as u64, kinds.len() as u64, runs.len() as u64])?;
+	let (class, nth) = POST_POSITIONS[g[1] as usize];
+	let mut p = grid_base([1, 2, 3, 0, 0][g[0] as usize], 1);
+	p.config.accounts[0].key_type = Some(["ecdsa-p256", "ed25519", "ecdsa-p521", "rsa2048", "ed448"][g[0] as usize].into());
+	p.cas[0].knobs.nonce_on_get = g[0] % 2 == 1;
+	p.faults.push(Fault { site: "net".into(), ca: 0, class: class.into(), nth, count: runs[g[3] as usize], kind: kinds[g[2] as usize].clone(), ..Default::default() });
+	p.note = format!("F2q base {} {}#{} x {} x run {}", g[0], class, nth, super::super::ca::fault_name(&kinds[g[2] as usize]), runs[g[3] as usize]);
 	Some(p)
 }
